@@ -28,6 +28,14 @@ pub fn angles() -> Vec<f64> {
         v.push(a);
         v.push(-a);
     }
+    // large odd multiples of pi (the seam of the signed range) and their neighbours within two ulps
+    for k in [10.0, 28.0, 57.0, 159.0, 1000.0, 31831.0] {
+        let a = (2.0 * k + 1.0) * PI;
+        for x in [a, a.next_up(), a.next_up().next_up(), a.next_down(), a.next_down().next_down()] {
+            v.push(x);
+            v.push(-x);
+        }
+    }
     v
 }
 
